@@ -50,9 +50,9 @@ Print Assumptions C19_applied_exact_flags.
 
 (* what a real session reports and writes over ANY number of test files (Model/Session.v): the previews printed are exactly the shown categories whose
    changes alter the text of some file; the changes written are exactly those of the shown, approved categories among them *)
-From V Require Model.Session Proofs.SessionProofs.
+From V Require Model.SnapOps Model.Session Proofs.SessionProofs.
 Theorem C19_session_reported_iff :
-  forall (cf : Session.sconf) (pending : list Session.change) (c : cat),
+  forall (cf : Session.sconf) (pending : list Session.change) (c : SnapOps.cat),
   In c (snd (Session.session cf pending)) <-> Session.shown cf c = true /\ existsb Session.ch_visible (Session.of_cat c pending) = true.
 Proof. exact SessionProofs.session_reported_iff. Qed.
 Theorem C19_session_applied_iff :
